@@ -825,6 +825,12 @@ func Main(args []string) int {
 			}
 			d.structure(r, c.ci)
 		}
+		// ringqp.Ring: Q and P side by side
+		rq, err := ring.NewRing(16, []uint64{97, 193, 257})
+		tr.Must(err)
+		rp, err := ring.NewRing(16, []uint64{449, 577})
+		tr.Must(err)
+		d.elementwiseQP(rq, rp)
 	}
 	if *part == "real" || *part == "all" {
 		bits := []int{61, 60, 59, 55, 50, 45, 40, 36, 33, 32, 31, 30, 25, 20, 16, 12, 8, 6}
